@@ -5,6 +5,7 @@ import Driver.C03
 import Driver.C06
 import Driver.C11
 import Driver.C12
+import Driver.C14
 import Driver.C15
 import Driver.C16
 import Driver.C20
@@ -17,6 +18,7 @@ def allEntries : List Entry :=
   ++ Driver.C06.entries
   ++ Driver.C11.entries
   ++ Driver.C12.entries
+  ++ Driver.C14.entries
   ++ Driver.C15.entries
   ++ Driver.C16.entries
   ++ Driver.C20.entries
